@@ -409,7 +409,7 @@ class GeneralSurrogate:
             d = np.power(output[:,x.shape[1]*x.shape[1]:],3)
             return np.squeeze(d)
         else:
-            return self.therm.getInterdiffusivity(x, T, phase=phase, *args, **kwargs)
+            return self.therm.getTracerDiffusivity(x, T, phase=phase, *args, **kwargs)
 
     def _collectSurrogateData(self):
         '''
